@@ -46,6 +46,8 @@ def units(ctx):
                 yield ("pre", "b", a, b)
     yield from hist.hist_units()
     yield ("long", "a")
+    yield ("deep", "a")
+    yield ("ladder", "a")
     for a in ctx["syms"][-6:] + ctx["syms"][:2]:
         yield ("aliased", a)
 
@@ -80,6 +82,47 @@ def gen_cases(unit, ctx):
                     word.append(sym)
                 word.append("w17")
                 yield {"word": word}
+        return
+    if unit[0] == "deep":
+        # scale in depth: one (channel, pitch) struck k times before any release (k = 1 ... 12), released k, k-1 or k+1
+        # times; and chords of m notes (m = 1 ... 12) played and released, then struck again and never released
+        for k in range(1, 13):
+            for gap in (1, 4):
+                for rel in (k, k - 1, k + 1):
+                    word = []
+                    for _ in range(k):
+                        word += ["on:0:72", f"w{gap}"]
+                    for _ in range(rel):
+                        word += ["off:0:72", "w2"]
+                    yield {"word": ["on:1:40", "w3"] + word + ["off:1:40", "w5"]}
+        for m in range(1, 13):
+            for closed_first in (True, False):
+                word = []
+                if closed_first:
+                    for r in range(2):
+                        for j in range(m):
+                            word += [f"on:{j % 2}:{50 + j}", "w2", f"off:{j % 2}:{50 + j}", "w1"]
+                for j in range(m):
+                    word.append(f"on:{j % 2}:{50 + j}")
+                yield {"word": word + ["w24"]}
+                yield {"word": word + ["w6", "on:0:90", "w2", "off:0:90", "w16"]}
+        return
+    if unit[0] == "ladder":
+        for n in lib.LADDER:
+            items = []
+            for k, (o, l, p, c, v) in enumerate(lib.long_desc(n, 40, (0, 1, 9), 5, lens=(3, 9, 5, 14))):
+                items.append((o, 1, f"on:{c}:{p}"))
+                items.append((o + l, 0, f"off:{c}:{p}"))
+            items.append((2, 1, "on:1:99"))
+            items.append((5 * n + 40, 0, "off:1:99"))                    # one pedal note under everything
+            items.sort()
+            word, t = [], 0
+            for (tick, _, sym) in items:
+                if tick > t:
+                    word.append(f"w{tick - t}")
+                    t = tick
+                word.append(sym)
+            yield {"word": word + ["w70001"]}
         return
     if unit[0] == "aliased":
         # words in which every occurrence of a symbol is THE SAME Message object (what concatenating a motif twice gives)
